@@ -20,8 +20,18 @@ type objectClass struct {
 }
 
 func objectEnumerate(obj *object, all bool, each func(string) bool) {
-	for _, name := range obj.propertyOrder {
-		if all || obj.property[name].enumerable() {
+	// The callback can add and delete properties (for-in body, getters): walk
+	// a snapshot of the names and skip those deleted before their turn (ES5
+	// 12.6.4). Walking the live list made the outcome depend on its spare
+	// capacity, which a Copy() does not preserve, and visited names twice.
+	names := make([]string, len(obj.propertyOrder))
+	copy(names, obj.propertyOrder)
+	for _, name := range names {
+		prop, exists := obj.property[name]
+		if !exists {
+			continue
+		}
+		if all || prop.enumerable() {
 			if !each(name) {
 				return
 			}
